@@ -16,8 +16,8 @@ BADV = {"int": ["x", "1.5", "9x", "", "true"], "float": ["x", "9x", "", "0b11", 
 DEFS = {"int": ["0", "1", "7"], "float": ["1.5", "2.25"], "bool": ["true", "false"], "str": ["d", "x", NULL]}
 
 
-def decl(name, ty, flags=(), df=(), sub=(), fn=""):
-    return {"name": name, "type": ty, "flags": sorted(flags), "def": list(df), "sub": list(sub), "cb": [], "fn": fn}
+def decl(name, ty, flags=(), df=(), sub=(), fn="", cb=()):
+    return {"name": name, "type": ty, "flags": sorted(flags), "def": list(df), "sub": list(sub), "cb": sorted(cb), "fn": fn}
 
 
 def gen_schema(rng, depth=0):
@@ -35,7 +35,15 @@ def gen_schema(rng, depth=0):
                 fl.add("DEPRECATED")
                 if rng.random() < 0.5:
                     fl.add("DROP")
-            out.append(decl(nm, ty, fl, [rng.choice(DEFS[ty])]))
+            cb = set()
+            if rng.random() < 0.2:
+                cb.add("valid")
+            if rng.random() < 0.15 and "DEPRECATED" not in fl:
+                cb.add("parse")
+            out.append(decl(nm, ty, fl, [rng.choice(DEFS[ty])], cb=cb))
+        elif r < 0.34 and depth < 2:
+            # a user-pointer option (value-parsing callback produces it, release callback takes it back)
+            out.append(decl(nm, "ptr", {"LIST"} if rng.random() < 0.5 else set(), [], cb={"parse"}))
         elif r < 0.55:
             ty = rng.choice(["int", "float", "bool", "str"])
             fl = {"LIST"}
@@ -45,14 +53,19 @@ def gen_schema(rng, depth=0):
             if rng.random() < 0.08:
                 fl |= {"DEPRECATED", "DROP"}
                 df = []
-            out.append(decl(nm, ty, fl, df))
+            cb = set()
+            if rng.random() < 0.2 and not df:      # (a parsed list default would run the callbacks inside cfg_init)
+                cb.add("valid")
+            if rng.random() < 0.15 and not df and "DEPRECATED" not in fl:
+                cb.add("parse")
+            out.append(decl(nm, ty, fl, df, cb=cb))
         elif r < 0.62:
             out.append(decl(nm, "func", fn="user"))
         elif r < 0.70:
             out.append(decl(nm, "sec", {"KEYSTRVAL"}))
         else:
             kind = rng.choice([set(), {"MULTI"}, {"MULTI", "TITLE"}, {"MULTI", "TITLE", "NO_TITLE_DUPES"}])
-            out.append(decl(nm, "sec", kind, sub=gen_schema(rng, depth + 1)))
+            out.append(decl(nm, "sec", kind, sub=gen_schema(rng, depth + 1), cb={"valid"} if rng.random() < 0.15 else ()))
     return out
 
 
@@ -61,6 +74,8 @@ def T(k, v="", nl=0):
 
 
 def gen_value(rng, ty, bad_p=0.04):
+    if ty == "ptr":
+        return rng.choice(["x", "1", "abc"])
     if ty != "str" and rng.random() < bad_p:
         return rng.choice(BADV[ty])
     return rng.choice(GOOD[ty])
@@ -215,6 +230,8 @@ def conv_sec(sec):
             vs = [NULL if x is None else x for x in o["v"]]
         elif ty == "int":
             vs = list(o["v"])
+        elif ty == "ptr":
+            vs = [NULL if x is None else "ptr%d" % x["id"] for x in o["v"]]
         else:
             vs = [NULL if x is None else str(x) for x in o["v"]]
         out.append({"n": o["n"], "ty": ty, "v": vs, "mod": bool(o["fl"] & FLAGBITS["MODIFIED"]),
@@ -227,10 +244,15 @@ def run(verdict, exe, n_exec, seed, tag="trace", texts_per=3, calls_per=12):
     plans, scripts = [], []
     for n in range(n_exec):
         schema = gen_schema(rng)
-        pcfg = {"nocase": False, "comments": rng.random() < 0.5, "ignore": rng.random() < 0.3}
+        pcfg = {"nocase": False, "comments": rng.random() < 0.5, "ignore": rng.random() < 0.3,
+                "failParse": rng.choice([0, 0, 0, 1, 2, 4]), "failValid": rng.choice([0, 0, 0, 1, 3]), "failFunc": rng.choice([0, 0, 0, 1, 2])}
         flags = (FLAGBITS["COMMENTS"] if pcfg["comments"] else 0) | (FLAGBITS["IGNORE_UNKNOWN"] if pcfg["ignore"] else 0)
         steps = []
-        lines = schema_lines("S", schema) + ["init c1 S %d" % flags]
+        lines = schema_lines("S", schema)
+        for kind, key in (("parse", "failParse"), ("valid", "failValid"), ("func", "failFunc")):
+            if pcfg[key]:
+                lines.append("failat %s %d" % (kind, pcfg[key]))
+        lines.append("init c1 S %d" % flags)
         for _ in range(rng.randint(1, texts_per)):
             toks = gen_text(rng, schema, pcfg)
             try:
@@ -286,7 +308,16 @@ def run(verdict, exe, n_exec, seed, tag="trace", texts_per=3, calls_per=12):
                 events.append({"e": "Print", "lines": respec(ls)})
             elif kind == "Parse":
                 d = line["diag"]
-                events.append({"e": "Parse", "toks": arg, "ret": line["ret"], "obs": obs, "ndiag": len(d),
+                cbs = []
+                for c in line["cb"]:
+                    if c["k"] == "parse":
+                        cbs.append({"k": "parse", "o": c["o"], "v": c["v"] if c["v"] is not None else NULL, "argv": [], "nvals": 0})
+                    elif c["k"] == "func":
+                        cbs.append({"k": "func", "o": c["o"], "v": "", "argv": c["argv"], "nvals": 0})
+                    elif c["k"] == "valid":
+                        cbs.append({"k": "valid", "o": c["o"], "v": "", "argv": [], "nvals": len(c["vals"])})
+                freed = ["ptr%d" % c["id"] for c in line["cb"] if c["k"] == "free"]
+                events.append({"e": "Parse", "toks": arg, "ret": line["ret"], "obs": obs, "ndiag": len(d), "cb": cbs, "freed": freed,
                                "dfile": ("buf" if d and d[0]["file"] == "[buf]" else (d[0]["file"] if d else "")) or "",
                                "dline": d[0]["line"] if d else 0})
             else:
@@ -307,6 +338,9 @@ def validate(verdict, events, index, plans, seed, tag):
             f.write(json.dumps(e) + "\n")
     ok, consumed, wall = tlc_trace(path)
     verdict.cov["trace_events"] = verdict.cov.get("trace_events", 0) + len(events)
+    verdict.cov["trace_callback_invocations"] = verdict.cov.get("trace_callback_invocations", 0) + sum(len(e.get("cb", [])) for e in events)
+    verdict.cov["trace_accepted_parses"] = verdict.cov.get("trace_accepted_parses", 0) + sum(1 for e in events if e["e"] == "Parse" and e["ret"] == 0)
+    verdict.cov["trace_rejected_parses"] = verdict.cov.get("trace_rejected_parses", 0) + sum(1 for e in events if e["e"] == "Parse" and e["ret"] != 0)
     verdict.cov["trace_executions"] = verdict.cov.get("trace_executions", 0) + len(index)
     verdict.cov["traces_validated_against_impl"] += len(index)
     if ok:
